@@ -35,14 +35,18 @@ def spec_day_rule(cal, d, r):
     return len(bucket) >= -k and bucket[k] == d
 
 
-def whole_run(ctx, corr, corr_t):
+def whole_run(ctx, corr, corr_t, year_end=False):
     from rqalpha.core.execution_context import ExecutionContext
     from rqalpha.environment import Environment
     rnd = random.Random(ctx.rnd.random())
     ndays = rnd.randrange(25, 70)
+    cal_start = datetime.date(rnd.choice([2019, 2020, 2021]), rnd.randrange(1, 13), rnd.randrange(1, 28))
+    if year_end:          # a run across the turn of the year (December is the month whose successor is in another year)
+        ndays = max(ndays, 50)
+        cal_start = datetime.date(cal_start.year, rnd.choice([11, 12]), cal_start.day)
     S = B.gen_market(rnd, ndays=ndays, warm=rnd.randrange(0, 6), n_stocks=1, with_future=False,
                      opts={"kinds": ["CS"], "p_delist": 0, "p_split": 0, "p_div": 0, "p_sus": 0, "p_limit": 0, "p_thin": 0,
-                           "cal_start": datetime.date(rnd.choice([2019, 2020, 2021]), rnd.randrange(1, 13), rnd.randrange(1, 28))})
+                           "cal_start": cal_start})
     stock = S["stocks"][0]["id"]
     cal = S["cal"]
     # run range: starts mid-week / mid-month somewhere inside the calendar
@@ -391,8 +395,8 @@ def run(ctx):
     c_civil = ctx.corr("civil dates", "model `civilOfOrdinal/ordinalOfCivil/weekday` vs Python `datetime.date` (1990..2060: sampled in quick, exhaustive in thorough)")
     c_time = ctx.corr("market_open/market_close/physical_time", "real helper functions vs model")
     c_uni = ctx.corr("sessions after a universe change (1d)", "daily rules at minutes inside/outside the stock session and a subscribed future's sessions, real runs vs model `universeRanges` + `dayFirings`")
-    for _ in range(ctx.n(3, 60)):
-        whole_run(ctx, corr, corr_t)
+    for k in range(ctx.n(3, 60)):
+        whole_run(ctx, corr, corr_t, year_end=(k % 3 == 0))
     for _ in range(ctx.n(6, 150)):
         mixed_run(ctx, c_uni)
     for _ in range(ctx.n(2, 40)):
